@@ -36,6 +36,8 @@ type VerifLockEdge struct {
 	FromClass, ToClass string
 	From, To           uintptr
 	Count              int64
+	Goroutines         []int64 // the goroutines that took the edge (at most 8 are kept)
+	Stack              string  // where: recorded once, only for edges between two locks of the same class
 }
 
 var (
@@ -131,9 +133,20 @@ func verifAcquire(id uintptr) {
 		e := verifEdges[k]
 		if e == nil {
 			e = &VerifLockEdge{FromClass: h.class, ToClass: class, From: h.id, To: id}
+			if h.class == class {
+				buf := make([]byte, 4096)
+				e.Stack = string(buf[:runtime.Stack(buf, false)])
+			}
 			verifEdges[k] = e
 		}
 		e.Count++
+		known := false
+		for _, x := range e.Goroutines {
+			known = known || x == g
+		}
+		if !known && len(e.Goroutines) < 8 {
+			e.Goroutines = append(e.Goroutines, g)
+		}
 	}
 	verifHeld[g] = append(verifHeld[g], verifHeldLock{id, class})
 	verifMu.Unlock()
